@@ -192,6 +192,47 @@ def install(eng):
         old = Opaque(call.ret_ty, f"taken:{r.cell.name}")
         return old
 
+    # OnceCell with an explicit content model (used when the harness builds the cell: Adt("OnceCell") with field ("cell", 0)
+    # holding an Option); cells that were lazily created by field access keep the coarse `take` summary above
+    def once_slot(call, r):
+        oc = call.deref(r, "adt") if isinstance(r, Ref) else r
+        if not isinstance(oc, Adt) or ("cell", 0) not in oc.fields:
+            return None
+        return oc.fields[("cell", 0)]
+
+    @on(r"OnceCell::get_or_init$")
+    def _once_get_or_init(call):
+        slot = once_slot(call, call.argv[0])
+        if slot is None:
+            return NotImplemented
+        opt = eng.force(slot, "adt")
+        k = discr_choice(call, opt, ("once_goi", call.fr.bb))
+        if k == 1:
+            call.m.event("oncecell_reuse")
+            return Ref(eng.field_cell(opt, ("Some", 0), None, "once.value"))
+        r = call_closure(call, call.argv[1], [], post=("once_init", slot))
+        if r is None:
+            raise UnknownCallee(call.norm, "opaque closure")
+        return r
+
+    @on(r"OnceCell::get_mut$|OnceCell::get$")
+    def _once_get(call):
+        slot = once_slot(call, call.argv[0])
+        if slot is None:
+            return NotImplemented
+        opt = eng.force(slot, "adt")
+        k = discr_choice(call, opt, ("once_get", call.fr.bb))
+        if k == 0:
+            return mk_enum("Option", "None")
+        return mk_enum("Option", "Some", Ref(eng.field_cell(opt, ("Some", 0), None, "once.value")))
+
+    @on(r"OnceCell::with_value$|OnceCell::from$")
+    def _once_with_value(call):
+        a = Adt("OnceCell", None)
+        a.fields[("cell", 0)] = Cell(mk_enum("Option", "Some", call.argv[0]), None, "once")
+        call.m.event("oncecell_new_with_value")
+        return a
+
     # ---------------------------------------------------------------- locks (trusted: an atomic block)
     @on(r"Mutex::lock$")
     def _mutex_lock(call):
@@ -625,6 +666,8 @@ def install(eng):
             self.acc = []
             self.is_result = is_result
             self.tick = 0
+            self.accv = None
+            self.try_ty = None
 
     def deliver(m, drv, value):
         fr = m.frames[-1]
@@ -713,6 +756,21 @@ def install(eng):
                         drv.phase = "pull"
                     elif c == "for_each":
                         drv.phase = "pull"
+                    elif c in ("fold", "try_fold"):
+                        if c == "fold":
+                            drv.accv = res
+                        else:
+                            ty = res.ty if isinstance(res, Adt) else None
+                            if ty not in ("Result", "Option"):
+                                raise Unsupported(f"try_fold over {ty}")
+                            drv.try_ty = ty
+                            cont = eng.variant_index(ty, "Ok" if ty == "Result" else "Some")
+                            d = eng.discr_of(res).e
+                            k = eng.decide(m, ("drv_tf", it.pos), [d == cont, d != cont])
+                            if k == 1:
+                                return ("done", res)
+                            drv.accv = eng.force(eng.field_cell(res, ("Ok" if ty == "Result" else "Some", 0), None, "acc"))
+                        drv.phase = "pull"
                 continue
             if drv.phase == "pull":
                 if it.extra == "unknown_prefix":
@@ -727,6 +785,11 @@ def install(eng):
                         return ("done", Bool(z3.BoolVal(True)))
                     if c == "for_each":
                         return ("done", UNIT)
+                    if c == "fold":
+                        return ("done", drv.accv)
+                    if c == "try_fold":
+                        ty = drv.try_ty or "Result"
+                        return ("done", mk_enum(ty, "Ok" if ty == "Result" else "Some", drv.accv))
                     if c == "collect":
                         v = VecVal(None, [Cell(x, None, f"collected[{i}]") for i, x in enumerate(drv.acc)], "Vec")
                         return ("done", mk_enum("Result", "Ok", v) if drv.is_result else v)
@@ -765,6 +828,9 @@ def install(eng):
                         drv.acc.append(drv.cur)
                     drv.phase = "pull"
                     continue
+                if c in ("fold", "try_fold"):
+                    push_closure(m, drv, drv.closure, [drv.accv, drv.cur])
+                    return ("await", None)
                 arg = Ref(Cell(drv.cur, None, "item")) if c == "find" else drv.cur
                 push_closure(m, drv, drv.closure, [arg])
                 return ("await", None)
@@ -804,6 +870,71 @@ def install(eng):
             call.m.event("iter_any", call.norm)
             return Bool(eng.fresh_bool("any_over_elements"))
         return start_drive(call, name, call.argv[1])
+
+    @on(r"Iterator>::peekable$|^(Iter|IntoIter|Map|Enumerate)::peekable$")
+    def _peekable(call):
+        it = call.argv[0]
+        if not isinstance(it, IterVal):
+            return NotImplemented
+        return it
+
+    @on(r"^Peekable::peek$")
+    def _peek(call):
+        r = call.argv[0]
+        it = r.cell.val if isinstance(r, Ref) else r
+        if not isinstance(it, IterVal):
+            return NotImplemented
+        if it.stages or it.extra == "unknown_prefix":
+            raise Unsupported("peek through adaptors / unknown prefix")
+        if it.pos >= len(it.items):
+            return mk_enum("Option", "None")
+        return mk_enum("Option", "Some", Ref(Cell(source_value(it, it.items[it.pos]), None, "peeked")))
+
+    @on(r"^<\[slice\]>::split_at$|slice::(.*::)?split_at$")
+    def _split_at(call):
+        v = vec_of(call, call.argv[0])
+        mid = eng._concrete(call.argv[1])
+        if v.base is not None or mid is None:
+            raise Unsupported("split_at with unknown prefix / symbolic mid")
+        if mid > len(v.items):
+            call.m.event("panic", call.fr.fn.short, "mid > len")
+            return Panic(f"{call.fr.fn.short}: split_at: mid > len")
+        t = Adt("(tuple)", None)
+        t.fields[(None, 0)] = Cell(Ref(Cell(VecVal(None, v.items[:mid], "[T]"), None, "split.0")), None, "t.0")
+        t.fields[(None, 1)] = Cell(Ref(Cell(VecVal(None, v.items[mid:], "[T]"), None, "split.1")), None, "t.1")
+        return t
+
+    def reverse_rest(it):
+        if any(st[0] == "enumerate" for st in it.stages) or it.extra == "unknown_prefix":
+            raise Unsupported("reversing an enumerated iterator / unknown prefix")
+        it.items = it.items[:it.pos] + list(reversed(it.items[it.pos:]))
+
+    @on(r"Iterator>::rev$|^(Iter|IntoIter|Map)::rev$")
+    def _iter_rev(call):
+        it = call.argv[0]
+        if not isinstance(it, IterVal):
+            return NotImplemented
+        reverse_rest(it)
+        return it
+
+    @on(r"Iterator>::(fold|try_fold|rfold|try_rfold)$|^(Iter|IntoIter|Enumerate|Map|FilterMap|Filter)::(fold|try_fold|rfold|try_rfold)$")
+    def _iter_fold(call):
+        r = call.argv[0]
+        it = r.cell.val if isinstance(r, Ref) else r
+        if not isinstance(it, IterVal):
+            return NotImplemented
+        name = call.norm.split("::")[-1]
+        if name in ("rfold", "try_rfold"):
+            reverse_rest(it)
+        cons = "try_fold" if name.startswith("try_") else "fold"
+        is_try_result = "Result" in call.callee
+        drv = Drive(it, cons, call.argv[2], call.dest, call.ret_bb, False)
+        drv.accv = call.argv[1]
+        drv.try_ty = "Result" if is_try_result else None
+        st, out = drive(call.m, drv)
+        if st == "done":
+            return out
+        return Inlined()
 
     @on(r"Iterator>::collect$|^(Iter|IntoIter|Enumerate|Map|FilterMap|Filter)::collect$")
     def _iter_collect(call):
